@@ -103,12 +103,16 @@ def designs(tier):
         add(4, 1.42, 52.0)
         add(2, 1.2, 0.0, wire=False, clr='mid')
         add(3, 1.08, 0.0, wire=False, clr='mid')
+        # a duct far too wide for the bundle (edge pitch-to-diameter ratio ~ 3): outside every range of the
+        # Cheng-Todreas correlations - the reader refuses it whenever one of them is involved
+        add(2, 1.2, 30.0, clr=2.0)
+        add(2, 1.2, 0.0, wire=False, clr=2.0)
         return out
     for rings in (2, 4, 8):
         for pd in (1.02, 1.08, 1.2, 1.42, 1.6):
             for hd in (4.0, 8.0, 30.0, 52.0, 100.0):
                 add(rings, pd, hd)
-        for clr in ('mid', 'loose'):
+        for clr in ('mid', 'loose', 1.0, 2.0):
             add(rings, 1.2, 30.0, clr=clr)
         for pd in (1.08, 1.2, 1.6):
             add(rings, pd, 0.0, wire=False, clr='mid')
